@@ -57,15 +57,16 @@ def code_of(kind, ident, d):
         lines.append('x = x + %d' % d['incx'])
         lines.append('box[0].append(x)')
         lines.append('lst.append(x)')
+    snd = []
     for s in d['sends']:
         args = [repr(ev_name(s['ev']))]
         if s['dl'] or (s['ev'] + s['par']) % 2 == 0:      # sometimes an explicit delay=0
             args.append('delay=%d' % s['dl'])
         if s['par']:
             args.append('v=%d' % s['par'])
-        lines.append('send(%s)' % ', '.join(args))
-    for m in d['nots']:
-        lines.append("notify('m%d')" % m)
+        snd.append('send(%s)' % ', '.join(args))
+    nts = ["notify('m%d')" % m for m in d['nots']]
+    lines += (nts + snd) if d.get('nf') else (snd + nts)
     if d['tick']:
         lines.append('tick(%d)' % d['tick'])
     return '\n'.join(lines)
@@ -81,6 +82,8 @@ def guard_of(tid, t, names):
         return 'g(%d, event, time, after(%d))' % (tid, t['ga'])
     if gk == 'idle':
         return 'g(%d, event, time, idle(%d))' % (tid, t['ga'])
+    if gk in ('afterp', 'idlep'):
+        return '%s(%d)' % (gk[:-1], t['ga'])
     if gk == 'active':
         return 'g(%d, event, time, active(%r))' % (tid, names[t['ga']])
     raise ValueError(gk)
@@ -126,11 +129,21 @@ def make_state(c, s, names):
     return st
 
 
+def text_id_of(c, tid):
+    """The number written in the action text.  A transition declared twice (equal in every field, unguarded, no
+    contract) gets the texts of its first occurrence: the copies are equal objects; they can never run (C04)."""
+    t = c['trans'][tid - 1]
+    if t['gk'] == 'none' and not (t['pre'] or t['post'] or t['inv']):
+        return 1 + c['trans'].index(t)
+    return tid
+
+
 def make_transition(c, tid, names):
     t = c['trans'][tid - 1]
+    text_id = text_id_of(c, tid)
     tr = Transition(names[t['src']], names[t['tgt']] if t['tgt'] else None,
                     event=ev_name(t['ev']) if t['ev'] else None,
-                    guard=guard_of(tid, t, names), action=code_of('a', tid, t['act']),
+                    guard=guard_of(tid, t, names), action=code_of('a', text_id, t['act']),
                     priority=t['prio'])
     pre, post, inv = contract_lists(-tid, t['pre'], t['post'], t['inv'])
     tr.preconditions.extend(pre)
@@ -263,7 +276,7 @@ def yaml_text(c, names, reverse=False):
                 g = guard_of(tid, t, names)
                 if g:
                     items.append('guard: ' + _ystr(g))
-                items.append('action: ' + _ystr(code_of('a', tid, t['act'])))
+                items.append('action: ' + _ystr(code_of('a', text_id_of(c, tid), t['act'])))
                 if t['prio']:
                     items.append('priority: ' + ({1: 'high', -1: 'low'}.get(t['prio'], str(t['prio']))))
                 for it in items:
